@@ -16,7 +16,7 @@ import (
 func init() {
 	register(&explore.Prop{
 		ID: "C15", Level: levelMC, Explorer: "E2 sequence explorer, path mode",
-		Rule: "environment = three segments (A built in memory, B persisted+loaded from a byte slice the harness keeps, M produced by a merge: 1-hit terms) and three caller bitmaps (single doc; a run-optimisable range; empty); operations = full observation of each segment, WriteTo of each, DocsMatchingTerms, a doc-value reader opened on the very slice Fields() returned, builds of two other batches (the pooled builder is recycled), PostingsList(except=bitmap)+walk on each segment, and merges of sub-lists [A],[A,B],[B,A],[A,M],[M,B],[A,B,M] under several bitmap assignments (public Merge API and chunk-mode hook); every operation sequence of length <=3 (thorough <=4) on a fresh environment; after every operation: observation and persisted bytes of every segment, the raw byte image given to Load, and value + serialized form of every bitmap must equal the baseline; " +
+		Rule: "environment = four segments (A built in memory, B persisted+loaded from a byte slice the harness keeps, M produced by a merge: 1-hit terms, A' a twin of A with the same shape and byte ranges but other content) and three caller bitmaps (single doc; a run-optimisable range; empty); operations = full observation of each segment, WriteTo of each, DocsMatchingTerms, a doc-value reader opened on the very slice Fields() returned, builds of two other batches (the pooled builder is recycled), PostingsList(except=bitmap)+walk on each segment, and merges of sub-lists [A],[A,B],[B,A],[A,M],[M,B],[A,B,M] under several bitmap assignments (public Merge API and chunk-mode hook); every operation sequence of length <=3 (thorough <=4) on a fresh environment; after every operation: observation and persisted bytes of every segment, the raw byte image given to Load, and value + serialized form of every bitmap must equal the baseline; " +
 			"distinct = sequences; non-trivial = sequence contains a merge or a WriteTo followed by a re-observation (all do); states = environments built, transitions = operations",
 		Assumptions: commonAssumptions, Budget: qBudget, Run: runC15,
 	})
@@ -47,7 +47,7 @@ func c15Batches() [][]model.Doc {
 
 func newC15Env() (*c15Env, error) {
 	bs := c15Batches()
-	e := &c15Env{names: []string{"A(built)", "B(loaded)", "M(merged)"}}
+	e := &c15Env{names: []string{"A(built)", "B(loaded)", "M(merged)", "A'(twin of A: same shape, other content)"}}
 	a, err := build(bs[0], 1025)
 	if err != nil {
 		return nil, err
@@ -74,7 +74,17 @@ func newC15Env() (*c15Env, error) {
 	if err != nil {
 		return nil, err
 	}
-	e.segs = []segment.Segment{a, b, m}
+	// a twin of A: the same document kinds under another tag of the same length - every section
+	// has the same byte ranges as A's but other content (anything cached by position only confuses them)
+	var twinBatch []model.Doc
+	for i, k := range []int{2, 1, 4, 2, 9, 1} {
+		twinBatch = append(twinBatch, gen.MixDoc(k, "z", i))
+	}
+	twin, err := build(twinBatch, 1025)
+	if err != nil {
+		return nil, err
+	}
+	e.segs = []segment.Segment{a, b, m, twin}
 	run := roaring.New()
 	run.AddRange(0, 5) // {0..4}: RunOptimize would rewrite its container
 	e.bms = []*roaring.Bitmap{bitmapOf(1), run, roaring.New()}
@@ -158,6 +168,10 @@ type c15Op struct {
 
 func c15Ops() []c15Op {
 	var ops []c15Op
+	ops = append(ops, c15Op{"observe(twin)", func(e *c15Env) error { _, err := observe(e.segs[3]); return err }})
+	ops = append(ops, c15Op{"stored(twin,0)", func(e *c15Env) error {
+		return e.segs[3].VisitStoredFields(0, func(string, []byte) bool { return true })
+	}})
 	for i := 0; i < 3; i++ {
 		i := i
 		ops = append(ops, c15Op{fmt.Sprintf("observe(%d)", i), func(e *c15Env) error { _, err := observe(e.segs[i]); return err }})
